@@ -4,7 +4,8 @@
     subsume those about the core grammar. *)
 From Coq Require Import NArith List Bool Arith Lia.
 From PLV Require Import Base.PyStr Tok.PState Tok.Tokenizer Parse.Nodes Parse.Parser Parse.ParseWire
-                        Doc.DocGrammar Doc.DocGrammar2 Proofs.RoundTripTok Proofs.RoundTrip2Tok Proofs.RoundTrip Proofs.RoundTrip2.
+                        Doc.DocGrammar Doc.DocGrammar2 Proofs.RoundTripTok Proofs.RoundTrip2Tok Proofs.RoundTrip Proofs.RoundTrip2
+                        Proofs.ParserAgree.
 Import ListNotations.
 
 Lemma forallb_ext' {A} (f g : A -> bool) l : (forall x, f x = g x) -> forallb f l = forallb g l.
@@ -199,3 +200,12 @@ Theorem core_embeds cx d : ok_doc cx d = true ->
   ok_doc2 cx (up_doc d) = true /\ unparse2 (up_doc d) = unparse d /\
   tree_of2 cx (walker_state cx) 0 (up_doc d) = tree_of cx (walker_state cx) 0 d.
 Proof. intros H. split; [apply ok_up_doc; exact H|]. split; [apply unparse_up_doc|apply tree_up_doc; exact H]. Qed.
+
+(** * Both parsing modes: a document of the grammar parses without error in
+    strict mode, so the tolerant parser returns the same tree ([ParserAgree]) *)
+Corollary parse_unparse2_modes cx d tol : ok_doc2 cx d = true ->
+  parse_top (unparse2 d) tol cx (walker_state cx) = doc_result2 cx d.
+Proof.
+  intros H. pose proof (parse_unparse2 cx d H) as P. destruct tol; [|exact P].
+  apply parse_top_agree. exact P.
+Qed.
